@@ -113,14 +113,14 @@ def uintSquareLimbs (limbs : List Nat) : List Nat × List Nat :=
 /-! ### `adc_mul_limbs` and `conditional_wrapping_neg_assign` (boxed helpers, karatsuba.rs) -/
 
 /-- one row of `adc_mul_limbs`: the mac loop with `carry2`, then
-    `carry = carry.wrapping_add(carry2); (out[i+j], carry) = out[i+j].adc(Limb::ZERO, carry)`. -/
+    `(out[i+j], carry) = out[i+j].adc(carry2, carry)` (the repaired epilogue, fix commit a99029b). -/
 def macRowAdc (xi : Nat) : List Nat → List Nat → Nat → Nat → List Nat × Nat
   | o :: os, y :: ys, c2, c =>
     let r := mac o xi y c2
     let t := macRowAdc xi os ys r.2 c
     (r.1 :: t.1, t.2)
   | o :: os, [], c2, c =>
-    let r := adc o 0 (wadd c c2)
+    let r := adc o c2 c
     (r.1 :: os, r.2)
   | [], _, _, c => ([], c)
 
